@@ -6,7 +6,7 @@ case $1 in
 start)
   [ -d $WT ] || git -C /repo worktree add --detach $WT $HEAD -q
   cd $WT; git cherry-pick --abort 2>/dev/null || true; git checkout -q -f $HEAD
-  P=$S/patch.diff; [ -f $S/patch.orig.diff ] && P=$S/patch.orig.diff
+  P=$S/patch.diff   # the latest rebased form; patch.orig.diff is only the historical original
   for r in $(git -C /repo rev-list HEAD); do git checkout -q -f $r; if git apply --check $P 2>/dev/null; then base=$r; break; fi; done
   [ -n "$base" ] || { echo NO-BASE; exit 1; }
   git apply $P; git add -A; git -c user.name=x -c user.email=x@x commit -qm "seed $2"; c=$(git rev-parse HEAD)
